@@ -340,7 +340,13 @@ def coq_check(c, r):
             rust = None
         else:
             rust = Some(([tuple(e) for e in run["edges"]], [tuple(f) for f in run["face_edges"]], [list(l) for l in run["loops"]]))
-        return "check_edges %s %s" % (coq(faces), coq(rust))
+        term = "check_edges %s %s" % (coq(faces), coq(rust))
+        af = r.get("after")
+        if af and not af["runs"][0].get("err") and len(af["faces"]) <= 60:
+            ar = af["runs"][0]
+            term = "both (%s) (check_edges %s %s)" % (term, coq([tuple(f) for f in af["faces"]]),
+                                                     coq(Some(([tuple(e) for e in ar["edges"]], [tuple(f) for f in ar["face_edges"]], [list(l) for l in ar["loops"]]))))
+        return term
     if k == "c12.patches":
         faces = [tuple(f) for f in r["faces"]]
         return "check_patches %s %s" % (coq(faces), coq([[list(p) for p in run] for run in r["runs"]]))
@@ -384,6 +390,10 @@ def oracle(c, r):
         yield (k.split(".")[1] + "-panic", "%s panicked on %r" % (k, c.get("faces", c)))
         return
     if k == "c12.edges":
+        if r.get("after"):
+            # the same mesh value after calc_edges, append of a moved copy, calc_edges (and once more after a rigid motion)
+            for key, msg in oracle({"k": "c12.edges", "_moved": True}, r["after"]):
+                yield (key, "after calc_edges -> append -> calc_edges: " + msg)
         faces = r["faces"]
         tags, cnt, bdeg = classify(faces)
         runs = r["runs"]
@@ -419,7 +429,8 @@ def oracle(c, r):
             boundary = {e: 1 for e, v in cnt.items() if v == 1}
             if used != boundary:
                 yield ("loops-partition", "boundary loops %r do not contain each boundary edge of %r exactly once as closed cycles (boundary edges %r)" % (run["loops"], faces, sorted(boundary)))
-        if any(x != runs[0] for x in runs):
+        strip = lambda x: {kk: vv for kk, vv in x.items() if kk != "lengths"}
+        if any((strip(x) if c.get("_moved") else x) != (strip(runs[0]) if c.get("_moved") else runs[0]) for x in runs):
             yield ("edges-unstable", "calc_edges gave different answers on the same mesh %r" % (faces,))
     elif k == "c12.patches":
         faces = r["faces"]
